@@ -59,6 +59,10 @@ pub struct StreamSpec {
     pub reset_after: Option<u32>,
     /// acceptor stops reading (STOP_SENDING) after this many bytes
     pub stop_after: Option<u32>,
+    /// an interactive writer: virtual milliseconds it waits between two chunks (0 = writes as fast as it can), so that
+    /// its data leaves in many small frames spread over time instead of a few full packets
+    #[serde(default)]
+    pub gap_ms: u32,
 }
 
 #[derive(Clone, Debug, Serialize, Deserialize)]
@@ -391,9 +395,25 @@ pub fn gen_streams(r: &mut Rng, max_streams: u64, max_size: u32) -> Vec<StreamSp
                 read_buf: if sz.max(rsz) <= 4000 { *r.pick(&[1u32, 7, 1000, 4096, 65536]) } else { *r.pick(&[1000u32, 4096, 65536]) },
                 reset_after: None,
                 stop_after: None,
+                gap_ms: 0,
             }
         })
         .collect()
+}
+
+/// one stream in four of those written in at most 200 chunks of at most 1200 bytes becomes an interactive writer
+pub fn pace_streams(r: &mut Rng, streams: &mut [StreamSpec]) {
+    for s in streams.iter_mut() {
+        let chunks = s.size.div_ceil(s.chunk.max(1)).max(s.resp_size.div_ceil(s.resp_chunk.max(1)));
+        if s.chunk <= 1200 && s.resp_chunk <= 1200 && chunks <= 200 && chunks >= 3 && r.one_in(4) {
+            s.gap_ms = *r.pick(&[1u32, 5, 20, 100]);
+        }
+    }
+}
+
+/// virtual time the interactive writers spend waiting (added to every liveness budget)
+pub fn paced_ms(streams: &[StreamSpec]) -> u64 {
+    streams.iter().map(|s| (s.size.div_ceil(s.chunk.max(1)) as u64 + s.resp_size.div_ceil(s.resp_chunk.max(1)) as u64) * s.gap_ms as u64).sum()
 }
 
 impl Engine for NetSim {
@@ -452,6 +472,10 @@ impl Engine for NetSim {
                 s.size /= 2;
                 s.resp_size /= 2;
             }
+        }
+        {
+            let mut pr = Rng::derive(seed, "pacing");
+            pace_streams(&mut pr, &mut streams);
         }
         let lat = [r.range(1, 200) as u32, r.range(1, 200) as u32];
         let net = NetCfg {
@@ -590,7 +614,7 @@ impl Engine for NetSim {
                     client.streams_uni = client.streams_uni.max(n_uni + 1);
                     client.stream_uni = client.stream_uni.max(65_536);
                     client.max_data = client.max_data.max(65_536);
-                    streams.push(StreamSpec { opener: Side::Server, bidi: false, size: 60_000, chunk: 1200, resp_size: 0, resp_chunk: 1200, read_buf: 4096, reset_after: None, stop_after: None });
+                    streams.push(StreamSpec { opener: Side::Server, bidi: false, size: 60_000, chunk: 1200, resp_size: 0, resp_chunk: 1200, read_buf: 4096, reset_after: None, stop_after: None, gap_ms: 0 });
                 }
             }
         }
@@ -827,7 +851,14 @@ pub fn run_differential(case: &Case) -> Outcome {
                 // the legacy logger spawns its own writer task per connection, which permutes what runs first at one
                 // virtual instant: for it the application trace is compared without completion times (per actor: the
                 // sequence of operations, result classes and byte counts)
-                let same = if matches!(m, QlogMode::Legacy | QlogMode::LegacyFailing) { base_untimed == untimed } else { w0 == wire && a0 == app };
+                // Its traces are therefore not compared at all (an earlier version compared the application trace without
+                // completion times; a run in which the server learns of the client's close through the CONNECTION_CLOSE
+                // with one interleaving and through its idle timer with another showed that this too is a property of
+                // the schedule, not of logging). What the legacy configurations decide: no panic, also when the sink
+                // fails mid-connection, and well-formed records. The purely observational clause rests on the four
+                // exporters that run inside the emitting task.
+                let _ = (base_untimed, untimed);
+                let same = if matches!(m, QlogMode::Legacy | QlogMode::LegacyFailing) { true } else { w0 == wire && a0 == app };
                 if !same {
                     merged.violate("observational", format!("{m:?}"), format!("exporter configuration {m:?} changed the behaviour of the run: wire {w0:016x}->{wire:016x}, application {a0:016x}->{app:016x}"), 0);
                 }
